@@ -211,6 +211,35 @@ def r05_3(ck, F):
     ck.expect(n >= 4, "interlock#sites", f"{n} serializers", f"only {n} interlocked serializers found", None)
 
 
+def r05_3c(ck, F):
+    ck.rule("R05.3c", "interlock bookkeeping: when a half of an lr / bin channel is serialized, check_local is evaluated on "
+            "the COUNTERPART's location and start_send records the transfer on the location of the half BEING SENT "
+            "(Sender::serialize: check receiver, mark sender; Receiver::serialize: check sender, mark receiver)",
+            "send the sender, then the receiver of one lr channel: both sends succeed, both ends are remote and wired to "
+            "nothing (values silently lost); for bin/io the forwarding mode is never entered", floor=4)
+    n = 0
+    for b in F.by_dp.values():
+        if b.crate != "remoc" or not b.file.endswith(("rch/lr/sender.rs", "rch/lr/receiver.rs", "rch/bin/sender.rs", "rch/bin/receiver.rs")):
+            continue
+        if not (b.path.endswith("Serialize>::serialize") or "Serialize>::serialize" in b.path and b.kind != "closure"):
+            continue
+        starts = [(bb, t) for bb, t in b.calls("rch::interlock::Location::start_send")]
+        checks = [(bb, t) for bb, t in b.calls("rch::interlock::Location::check_local")]
+        if not starts:
+            continue
+        n += 1
+        own = "sender" if "sender.rs" in b.file else "receiver"
+        other = "receiver" if own == "sender" else "sender"
+        marked = [mir.last_field(b.expr(t["a"][0])) for bb, t in starts]
+        checked = [mir.last_field(b.expr(t["a"][0])) for bb, t in checks]
+        site = mir.strip_generics(b.path).replace("rch::", "")
+        ck.expect(marked == [own] and other in checked, site,
+                  f"checks `{other}`, records the transfer on `{own}`",
+                  f"serializing the {own} checks {checked} and records the transfer on {marked}: the {own} itself is never "
+                  f"marked as sent, so the {other} can be sent as well", b.loc(starts[0][0]))
+    ck.expect(n >= 4, "interlock#bookkeeping-sites", f"{n} serializers", f"only {n} serializers found", None)
+
+
 def r05_3b(ck, F):
     ck.rule("R05.3b", "interlock state machine: Location::check_local returns true for Local; for Sending it becomes Remote "
             "(false) once the transfer was confirmed, stays Sending (false) while pending, and falls back to Local (true) "
@@ -253,6 +282,7 @@ def r05_3b(ck, F):
 def run(ck, F):
     import c03
     ck.run_rule(r05_3b)
+    ck.run_rule(r05_3c)
     for r in (r05_1, r05_2, r05_3):
         ck.run_rule(r)
     ck.run_rule(c03.r03_2)
